@@ -111,6 +111,9 @@ func ParseFile(filename string) (any, error) { // main.go ã§ã®ä½¿ç”¨ã«åŸºã¥ã
 	if err != nil {
 		log.Fatalf("Failed to read file: %v", err)
 	}
+	if err := gen.CheckNesting(content); err != nil {
+		return nil, err
+	}
 	// ãƒ‘ãƒ¼ã‚µãƒ¼ã‚¤ãƒ³ã‚¹ã‚¿ãƒ³ã‚¹ã‚’ä½œæˆã™ã‚‹ä»£ã‚ã‚Šã« gen.Parse ã‚’ç›´æ¥ä½¿ç”¨ã—ã¾ã™
 	return gen.Parse(filepath.Base(filename), content)
 }
